@@ -3,8 +3,8 @@
    vmap as a zip): environment i's new step state and rollout are those of a SINGLE-environment collection from ITS OWN state and ITS OWN
    key split(rollout_key, N)[i], for an arbitrary single-environment collection function; nothing of environment j enters.
    props/C12.v proves the same about the hand-written OnPolicy.collect_vec; this is the statement about the code's own call site. *)
-From Coq Require Import List ZArith Bool Lia.
-From Lerax Require Import KBase KBaseProofs Env OnPolicy.
+From Coq Require Import List ZArith QArith Bool Lia.
+From Lerax Require Import KBase KBaseProofs Env OnPolicy Replay OffPolicy.
 From LeraxGen Require Import GenK_C12.
 Import ListNotations.
 
@@ -54,3 +54,41 @@ End Vec.
 
 Print Assumptions gen_oniterN_eq_singles.
 Print Assumptions gen_oniterN_env_i.
+
+(* reset() of the off-policy learners for N > 1 parallel environments (off_policy.py; the translator insists on the in_axes of the two
+   vmaps): environment i gets ITS OWN buffer of capacity buffer_size // N, initial state from split(init_key, N)[i] and warm-up with
+   split(starts_key, N)[i]; the iteration counter starts at 0; the observer is reset with its own key *)
+Section OffReset.
+  Context {SS CB : Type}.
+  Variables (N B : nat) (ss_init : Z -> kpath -> SS) (warm : SS -> kpath -> SS) (cb_reset : kpath -> CB) (k : kpath).
+
+  Theorem gen_offresetN_eq_singles :
+    gen_offresetN_step_states N B ss_init warm cb_reset k =
+    map (fun i => warm (ss_init (Z.of_nat B / Z.of_nat N) (ks (ks k 3 0) N i)) (ks (ks k 3 1) N i)) (seq 0 N) /\
+    gen_offresetN_count N B ss_init warm cb_reset k = 0%Z /\
+    gen_offresetN_callback_state N B ss_init warm cb_reset k = cb_reset (ks k 3 2).
+  Proof.
+    unfold gen_offresetN_step_states, gen_offresetN_count, gen_offresetN_callback_state.
+    rewrite !Nat2Z.id. unfold ksplit_keys. rewrite map_map.
+    rewrite (kzip2_map (fun s0 k0 => warm s0 k0)). repeat split; reflexivity.
+  Qed.
+End OffReset.
+
+(* instantiated with the concrete initial state and warm-up of the off-policy model: this is OffPolicy.off_reset for N <> 1 *)
+Theorem gen_offresetN_eq_model {S PS O : Type} (E : env S Q O) (P : acpol PS Q O) (N B L : nat) (canon_o : O) (canon_a : Q) (k : kpath) :
+  N <> 1%nat ->
+  gen_offresetN_step_states N B
+    (fun size ik => ((e_init E (ks ik 2 0), p_reset P (ks ik 2 1)), soa_empty (Z.to_nat size) canon_o canon_a (p_reset P (ks ik 2 1))))
+    (fun st sk => off_scan E P st (split_keys sk L)) (fun _ => tt) k =
+  off_reset E P N B L canon_o canon_a k.
+Proof.
+  intros HN. destruct (gen_offresetN_eq_singles N B
+    (fun size ik => ((e_init E (ks ik 2 0), p_reset P (ks ik 2 1)), soa_empty (Z.to_nat size) canon_o canon_a (p_reset P (ks ik 2 1))))
+    (fun st sk => off_scan E P st (split_keys sk L)) (fun _ => tt) k) as [-> _].
+  unfold off_reset. destruct (Nat.eqb_spec N 1) as [->|_]; [congruence|].
+  apply map_ext. intros i. unfold off_reset_env. cbn [fst snd].
+  rewrite <- Nat2Z.inj_div, Nat2Z.id. reflexivity.
+Qed.
+
+Print Assumptions gen_offresetN_eq_singles.
+Print Assumptions gen_offresetN_eq_model.
